@@ -176,6 +176,17 @@ Theorem C15_window_count_counts_all : forall (O : FloatOps) ops r,
   r_count O (rfinal O r ops) = r_count O r + adds O ops.
 Proof. exact count_counts_all. Qed.
 
+(* a summary's _sum and _count cover ALL samples: after any operations (any timestamps) count = number of
+   adds and sum = the adds folded in order; a snapshot reports exactly these two and leaves the state alone,
+   whatever the window currently holds (the quantiles come from the window: C15_window) *)
+Theorem C15_summary_sum_covers_all : forall (O : FloatOps) ops r,
+  r_sum O (rfinal O r ops) = fold_left (fadd O) (add_values O ops) (r_sum O r).
+Proof. exact sum_covers_all. Qed.
+
+Theorem C15_summary_snapshot_reports_lifetime_count_and_sum : forall (O : FloatOps) (r : rsum O) t,
+  exists sc mn mx qs, rstep O r (RSnap O t) = (r, OSnap O (r_count O r) (r_sum O r) sc mn mx qs).
+Proof. exact snapshot_reports_lifetime. Qed.
+
 Theorem C15_window_snapshot_merges_unexpired : forall (O : FloatOps) (r : rsum O) now v,
   In v (rs_snapshot O r now) <->
   exists b, In b (r_buckets O r) /\ In v (rb_vals O b) /\
